@@ -69,18 +69,19 @@ Fixpoint prefixes_from (cur : string) (cs : list string) : list string :=
   end.
 Definition prefixes (p : string) : list string := prefixes_from "/" (comps_of p).
 
-(* os.MkdirAll: None = a component is a regular file *)
-Fixpoint mkdirs (w : fs) (ps : list string) : option fs :=
+(* os.MkdirAll: false = a component is a regular file (the directories above
+   it have been created by then) *)
+Fixpoint mkdirs (w : fs) (ps : list string) : bool * fs :=
   match ps with
-  | [] => Some w
+  | [] => (true, w)
   | p :: r =>
       match fs_lookup p w with
       | Some NDir => mkdirs w r
-      | Some (NFile _ _) => None
+      | Some (NFile _ _) => (false, w)
       | None => mkdirs ((p, NDir) :: w) r
       end
   end.
-Definition mkdir_all (w : fs) (p : string) : option fs := mkdirs w (prefixes p).
+Definition mkdir_all (w : fs) (p : string) : bool * fs := mkdirs w (prefixes p).
 
 (* os.Stat on a clean rooted path: the kernel walks the components *)
 Inductive sres := SNotExist | SOtherErr | SOk (n : node).
@@ -243,84 +244,87 @@ Definition parse_dir (w : fs) (src : string) : option (string * string * fs) * l
   end.
 
 (* ---------- file.CopyToDir / CopyDirToDir ---------- *)
-Definition copy_to_dir (w : fs) (file dst : string) : option fs * list eff :=
+(* result: success, the file system reached, effects *)
+Definition copy_to_dir (w : fs) (file dst : string) : bool * fs * list eff :=
   match stat w file with
   | SOk (NFile x m) =>
       match mkdir_all w dst with
-      | None => (None, [EStat file; EMkdirAll dst])
-      | Some w1 =>
+      | (false, w1) => (false, w1, [EStat file; EMkdirAll dst])
+      | (true, w1) =>
           let t := child_path dst (base_name file) in
-          (Some (fs_set t (NFile x m) w1), [EStat file; EMkdirAll dst; EWrite t])
+          (true, fs_set t (NFile x m) w1, [EStat file; EMkdirAll dst; EWrite t])
       end
-  | _ => (None, [EStat file])
+  | _ => (false, w, [EStat file])
   end.
 
 Fixpoint copy_files (w : fs) (src : string) (es : list (string * node)) (dst : string)
-  : option fs * list eff :=
+  : bool * fs * list eff :=
   match es with
-  | [] => (Some w, [])
-  | (c, NDir) :: r => copy_files w src r dst
+  | [] => (true, w, [])
+  | (c, NDir) :: r => copy_files w src r dst                 (* fs.SkipDir *)
   | (c, NFile _ _) :: r =>
       match copy_to_dir w (child_path src c) dst with
-      | (None, l) => (None, l)
-      | (Some w1, l) => let '(o, l2) := copy_files w1 src r dst in (o, (l ++ l2)%list)
+      | (false, w1, l) => (false, w1, l)
+      | (true, w1, l) => let '(o, w2, l2) := copy_files w1 src r dst in (o, w2, (l ++ l2)%list)
       end
   end.
 
-Definition copy_dir_to_dir (w : fs) (src dst : string) : option fs * list eff :=
-  let '(o, l) := copy_files w src (children w src) dst in
-  (o, (EStat src :: EReadDir src :: l)).
+Definition copy_dir_to_dir (w : fs) (src dst : string) : bool * fs * list eff :=
+  let '(o, w1, l) := copy_files w src (children w src) dst in
+  (o, w1, (EStat src :: EReadDir src :: l)).
 
 (* ---------- CLIManager.Install ---------- *)
 Definition is_not_exist (e : err) : bool := match e with ENotExist => true | _ => false end.
 
+(* "check plugin existence and get existing plugin metadata" and the version
+   rules: Some e = Install returns the error e here *)
+Definition install_verdict (w : fs) (root name : string) (newv : N) (ow : bool)
+  : option err * list eff :=
+  let '(ge, gp, glog) := get w root name in
+  match ge, gp with
+  | ENone, Some p =>
+      (* existingPlugin.GetMetadata *)
+      let '(om, oran) := run_meta w p name in
+      let l := (glog ++ [EExec p oran])%list in
+      if ow then (None, l)
+      else match om with
+           | MOk oldv =>
+               match (newv ?= oldv)%N with
+               | Gt => (None, l)
+               | _ => (Some EOther, l)        (* downgrade / equal version *)
+               end
+           | _ => (Some EOther, l)
+           end
+  | e, _ => if negb (is_not_exist e) && negb ow then (Some e, glog) else (None, glog)
+  end.
+
+(* "clean up before installation" and the copy *)
+Definition install_finish (w : fs) (root name file src : string) (from_file : bool)
+  : outcome :=
+  let '(ue, w2, ulog) := uninstall w root name in
+  match ue with
+  | ENone | ENotExist =>
+      let dst := pjoin [root; name] in
+      let '(o, w3, clog) :=
+        if from_file then copy_to_dir w2 file dst else copy_dir_to_dir w2 src dst in
+      mk_out (if o then ENone else EOther) MNone w3 (ulog ++ clog) []
+  | e => mk_out e MNone w2 ulog []
+  end.
+
 (* from "validate and get new plugin metadata" on; [log] is what happened before *)
 Definition install_core (w : fs) (root name file src : string) (from_file ow : bool)
            (log : list eff) : outcome :=
-  (* NewCLIPlugin(ctx, pluginName, pluginExecutableFile): stat *)
-  let log := (log ++ [EStat file])%list in
-  (* newPlugin.GetMetadata *)
+  (* NewCLIPlugin(ctx, pluginName, pluginExecutableFile): stat; newPlugin.GetMetadata *)
   let '(nm, ran) := run_meta w file name in
-  let log := (log ++ [EExec file ran])%list in
+  let log := (log ++ [EStat file; EExec file ran])%list in
   match nm with
   | MOk newv =>
-      (* m.Get(ctx, pluginName) and the version rules *)
-      let '(ge, gp, glog) := get w root name in
-      let log := (log ++ glog)%list in
-      let verdict : option err * list eff :=
-        match ge, gp with
-        | ENone, Some p =>
-            let '(om, oran) := run_meta w p name in
-            let l := [EExec p oran] in
-            if ow then (None, l)
-            else match om with
-                 | MOk oldv =>
-                     match (newv ?= oldv)%N with
-                     | Gt => (None, l)
-                     | _ => (Some EOther, l)        (* downgrade / equal version *)
-                     end
-                 | _ => (Some EOther, l)
-                 end
-        | e, _ => if negb (is_not_exist e) && negb ow then (Some e, []) else (None, [])
-        end in
-      let log := (log ++ snd verdict)%list in
-      match fst verdict with
-      | Some e => mk_out e MNone w log []
+      let '(v, vlog) := install_verdict w root name newv ow in
+      match v with
+      | Some e => mk_out e MNone w (log ++ vlog) []
       | None =>
-          (* m.Uninstall(ctx, pluginName) *)
-          let '(ue, w2, ulog) := uninstall w root name in
-          let log := (log ++ ulog)%list in
-          match ue with
-          | ENone | ENotExist =>
-              let dst := pjoin [root; name] in
-              let '(o, clog) :=
-                if from_file then copy_to_dir w2 file dst else copy_dir_to_dir w2 src dst in
-              match o with
-              | Some w3 => mk_out ENone MNone w3 (log ++ clog) []
-              | None => mk_out EOther MNone w2 (log ++ clog) []
-              end
-          | e => mk_out e MNone w log []
-          end
+          let r := install_finish w root name file src from_file in
+          mk_out (r_err r) MNone (r_fs r) (log ++ vlog ++ r_log r) []
       end
   | _ => mk_out EOther MNone w log []
   end.
@@ -496,10 +500,12 @@ Definition is_dir_node (n : node) : bool := match n with NDir => true | _ => fal
 (* every observed execution, removal and write lies in [a] (or in the install
    source [src]); the only other change tolerated is the creation of missing
    ancestor directories of [a] (MkdirAll) *)
+Definition insideb (a src : option string) (p : string) : bool :=
+  match a with Some a => withinb a p | None => false end
+  || match src with Some s => withinb s p | None => false end.
+
 Definition contained (i : input) (o : obs) (a : option string) (src : option string) : bool :=
-  let inside p :=
-    match a with Some a => withinb a p | None => false end
-    || match src with Some s => withinb s p | None => false end in
+  let inside := insideb a src in
   forallb inside (o_exec o)
   && forallb inside (o_removed o)
   && forallb (fun e =>
@@ -579,7 +585,7 @@ Definition spec_ok (i : input) (o : obs) : bool :=
 Definition wf (i : input) : bool :=
   is_abs (i_root i)
   && match i_op i with
-     | OInstall src _ => is_abs src && String.eqb (clean src) src
+     | OInstall src _ => is_abs src && String.eqb (clean src) src && negb (String.eqb src "/")
      | _ => true
      end.
 
